@@ -171,7 +171,7 @@ func (h *Handler) Handle(req, resp dhcpv6.DHCPv6) (dhcpv6.DHCPv6, bool) {
 		for hintIdx, h := range hints {
 			for leaseIdx := range knownLeases {
 				if samePrefix(h.Prefix, &knownLeases[leaseIdx].Prefix) {
-					expire := time.Now().Add(leaseDuration)
+					expire := timeNow().Add(leaseDuration)
 					if knownLeases[leaseIdx].Expire.Before(expire) {
 						knownLeases[leaseIdx].Expire = expire
 					}
@@ -202,7 +202,7 @@ func (h *Handler) Handle(req, resp dhcpv6.DHCPv6) (dhcpv6.DHCPv6, bool) {
 						continue
 					}
 				}
-				expire := time.Now().Add(leaseDuration)
+				expire := timeNow().Add(leaseDuration)
 				if knownLeases[leaseIdx].Expire.Before(expire) {
 					knownLeases[leaseIdx].Expire = expire
 				}
@@ -244,7 +244,7 @@ func (h *Handler) Handle(req, resp dhcpv6.DHCPv6) (dhcpv6.DHCPv6, bool) {
 				continue
 			}
 			l := lease{
-				Expire: time.Now().Add(leaseDuration),
+				Expire: timeNow().Add(leaseDuration),
 				Prefix: allocated,
 			}
 
